@@ -46,6 +46,11 @@ CHECKS = {
    "The lifecycle model shows which design has the Released/Bounded properties; the real process is then measured: after 1, 5, 25 (100, 400) sequential and concurrent calls of SinglePipelineSimulate / Fitness_default / the assembler, the number of live goroutines (grouped by creating function) must stay within a constant of the number before the first call, which a leak per call cannot satisfy whatever the release mechanism is.",
    "Bound: 3 goroutines above the pre-series count after a settle period (GC + yields). The assembler's requirement-server leak is a recorded known finding. Trusted: runtime.Stack profile parsing.",
    "DESIGN.md §4 C17", "bmverif"),
+ "C05": ("model_checking",
+   "TLA+ reference semantics BasmSem of BASM SOURCE programs (labels, entry directive at any position, a macro, mov pseudo-instructions in register/literal/input/output forms, literals in every notation, synchronous I/O, one or two processors wired by ioatt) with a second, as-coded interpreter for the recorded deviations; TLC -simulate builds programs and their expected output streams; each is printed as .basm text, assembled by the real assembler, the emitted machine simulated by the real VM inside a four-phase handshaking environment and every external output stream compared with the specification's",
+   "Programs are drawn from the specification's own grammar with balanced odds for every line kind, so label resolution after directive removal and macro expansion, matcher resolution of every mov form, opcode-index assignment and literal import are exercised together on whole programs; the oracle is the specification's interpreter over the source text, which shares nothing with the assembler's passes.",
+   "Programs of 8-10 lines over four registers, register sizes 8 and 16 (TLC integers are 32-bit), one macro without parameters (macro parameters are not substituted by the pinned tree), I/O lines on one port at least three lines apart (closer ones run into the recorded C04 findings); data sections, calls and fragments are not generated (fragments: C06). Trusted: TLC, the pretty-printer from the spec's lines to .basm text, the environment process of the harness.",
+   "DESIGN.md §4 C05", "bmverif"),
  "C12": ("model_checking",
    "TLA+ spec BondgoSync (visitor / Var_assigner / Usage_Monitor over unbuffered channels) model-checked by TLC for deadlock freedom, termination under fairness, NotifiedBeforeExit and SameRequirements; the real compiler (verif build) run under schedules forced by delays at every hook point, hook logs and process outcomes trace-validated by TLC; TLA+ reference semantics GoSubset simulated by TLC to build programs with expected output streams, compiled by the real bondgo, simulated by the real VM and compared",
    "The protocol model explores every interleaving of the compiler's three goroutines and singles out the schedule that deadlocks a given ordering of the assigner's answer/notify pair; the real compiler is then driven into exactly those schedules (and the others reachable by delaying each synchronisation point), must terminate in all of them and must emit identical artefacts. Independently, programs drawn from the reference semantics are compiled and executed and their output streams must equal the specification's.",
